@@ -62,6 +62,12 @@ type sTask struct {
 	PrecondOk   bool   `json:"precond_ok"`
 	UpToDate    bool   `json:"up_to_date,omitempty"`
 	Prompt      bool   `json:"prompt,omitempty"`
+	// CompileErr > 0: the task does not compile (model: compileOk = false) — a template that fails when it is
+	// executed, in a task-level field: 1 label, 2 env, 3 prefix, 4 summary (not `dir:` — that one is templated by
+	// the variable compiler already, so FastCompiledTask reports it, before the platform check).  CompileSrc (rendering only): the task
+	// also declares `sources:`, so that compiling it goes through the checksum variable and the templater's reset
+	CompileErr int  `json:"compile_err,omitempty"`
+	CompileSrc bool `json:"compile_src,omitempty"`
 	// Rendering only — the model's program does not know how a task is named:
 	// Aliases: the task has that many aliases (`aliases: [t<i>a, t<i>b]`); Wild: it is a wildcard task (`t<i>-*`)
 	// that every reference calls by a concrete name (`t<i>-x`, `t<i>-y`, `t<i>-z`).  Which name a reference
@@ -213,6 +219,19 @@ func renderSched(d schedCase) (string, string) {
 		if t.Prompt {
 			b.WriteString("    prompt: 'sure?'\n")
 		}
+		switch t.CompileErr {
+		case 1:
+			b.WriteString("    label: 'L{{index .NOSUCH 99}}'\n")
+		case 2:
+			b.WriteString("    env: {CE: '{{index .NOSUCH 99}}'}\n")
+		case 3:
+			b.WriteString("    prefix: 'P{{index .NOSUCH 99}}'\n")
+		case 4:
+			b.WriteString("    summary: 'S{{index .NOSUCH 99}}'\n")
+		}
+		if t.CompileErr > 0 && t.CompileSrc {
+			b.WriteString("    sources: ['Taskfile.yml']\n")
+		}
 		if len(t.Deps) > 0 {
 			b.WriteString("    deps:\n")
 			for _, dp := range t.Deps {
@@ -313,8 +332,8 @@ func progTokens(d schedCase) string {
 				fmt.Fprintf(&b, " s %d %s %s", c.Code, b2s(c.IgnoreErr), b2s(c.Deferred))
 			}
 		}
-		fmt.Fprintf(&b, " %s %s %s %s %s %s %s %s %s", b2s(t.IgnoreError), t.Run, b2s(t.Internal), b2s(t.PlatformOk), b2s(t.RequiresOk),
-			b2s(t.EnumOk), b2s(t.PrecondOk), b2s(t.UpToDate), b2s(t.Prompt))
+		fmt.Fprintf(&b, " %s %s %s %s %s %s %s %s %s %s", b2s(t.IgnoreError), t.Run, b2s(t.Internal), b2s(t.PlatformOk), b2s(t.RequiresOk),
+			b2s(t.EnumOk), b2s(t.PrecondOk), b2s(t.UpToDate), b2s(t.Prompt), b2s(t.CompileErr == 0))
 	}
 	fmt.Fprintf(&b, " C %d", len(d.Calls))
 	for _, c := range d.Calls {
@@ -609,6 +628,10 @@ func (c *Ctx) genSched(maxTasks int, cyclic bool) schedCase {
 		}
 		if r.Intn(15) == 0 {
 			t.Internal = true
+		}
+		if r.Intn(16) == 0 {
+			t.CompileErr = 1 + r.Intn(4)
+			t.CompileSrc = r.Intn(2) == 0
 		}
 		t.IgnoreError = r.Intn(8) == 0
 		pick := func() int {
@@ -1228,6 +1251,10 @@ func (c *Ctx) genGuards() schedCase {
 	gt.PrecondOk = r.Intn(2) == 0
 	gt.UpToDate = r.Intn(2) == 0
 	gt.Prompt = r.Intn(2) == 0
+	if r.Intn(2) == 0 {
+		gt.CompileErr = 1 + r.Intn(4)
+		gt.CompileSrc = r.Intn(2) == 0
+	}
 	gt.Run = []string{"always", "always", "once", "when_changed"}[r.Intn(4)]
 	gt.Cmds = []sCmd{shOk()}
 	if r.Intn(3) == 0 {
@@ -1471,6 +1498,13 @@ func runSched(c *Ctx) {
 			}
 			if d.Inc {
 				c.Hit("render:included-colon-names")
+			}
+			for _, e := range o.events {
+				if e.Kind == "enter" {
+					if i := taskIndex(e.Args[3]); i < len(d.Tasks) && d.Tasks[i].CompileErr > 0 && d.Tasks[i].PlatformOk && d.Tasks[i].RequiresOk {
+						c.Hit(map[bool]string{true: "compile-error:with-sources", false: "compile-error:without-sources"}[d.Tasks[i].CompileSrc])
+					}
+				}
 			}
 			c.renderHits(d, o)
 			if maxAlive(o.events) >= 2 || kinds["waiter"] || kinds["precondFail"] || kinds["promptFail"] || kinds["upToDate"] || o.result != "ok" {
